@@ -236,7 +236,9 @@ pub fn set_preference(name: String, value: String) -> Result<()> {
             let mut lang_country_split = value.split('-');
             let language = lang_country_split.next().unwrap_or("");
             let country = lang_country_split.next().unwrap_or("");
-            if language.len() != 2 {
+            // two (ASCII) letters for the language; the country/region part ends up in a directory name, so only letters and digits
+            if language.len() != 2 || !language.chars().all(|ch| ch.is_ascii_alphabetic()) ||
+               country.len() > 8 || !country.chars().all(|ch| ch.is_ascii_alphanumeric()) {
                 bail!(
                     "Improper format for 'Language' preference '{}'. Should be of form 'en' or 'en-gb'",
                     value
